@@ -280,4 +280,33 @@ def generate(h):
             last = "{| d_type := \"\"; d_tag := %s; d_member := %s; d_getter := %s; d_wrap := WNone |}" % (q(el.group(1)), q(el.group(2)), q(el.group(3)))
     out.append("Definition value_dispatch : list dispatch :=\n  [ %s ]." % ";\n    ".join(rows))
     out.append("Definition value_dispatch_else : dispatch := %s." % (last or '{| d_type := ""; d_tag := "?"; d_member := "?"; d_getter := "?"; d_wrap := WNone |}'))
+    # ---- the C++ side of "...OrDefault": MockSupport and MockCheckedActualCall define it as hasReturnValue() ? getter() : default
+    rows = []
+    for path, cls, pats in (("src/CppUTestExt/MockSupport.cpp", "MockSupport",
+                             [r"if \(hasReturnValue\(\)\) \{ return (\w+)\(\); \} return (\w+);"]),
+                            ("src/CppUTestExt/MockActualCall.cpp", "MockCheckedActualCall",
+                             [r"if \(!hasReturnValue\(\)\) \{ return (\w+); \} return (\w+)\(\);"])):
+        t = h.src(path)
+        t = re.sub(r"\n#else.*?\n#endif", "\n", t, flags=re.S)
+        n = 0
+        found = [(m.group(1), m.group(2), m.group(3)) for m in re.finditer(r"\b%s::(return\w+ValueOrDefault)\s*\(([^()]*)\)\s*\{(.*?)\n\}" % cls, t, re.S)]
+        found += [(m.group(1), m.group(2), m.group(3)) for m in
+                  re.finditer(r"\b%s::(returnFunctionPointerValueOrDefault)\s*\(void \(\*(\w+)\)\(\)\)\)\(\)\s*\{(.*?)\n\}" % cls, t, re.S)]
+        for meth, params, body in found:
+            body = re.sub(r"\s+", " ", body).strip()
+            pn = re.findall(r"(\w+)\s*$", params.strip())
+            g = re.fullmatch(pats[0], body)
+            if not g or not pn:
+                E.append("C19: %s::%s is not hasReturnValue() ? getter() : default: %r" % (cls, meth, body))
+                continue
+            a, b = g.group(1), g.group(2)
+            getter, dflt = (a, b) if cls == "MockSupport" else (b, a)
+            if dflt != pn[0]:
+                E.append("C19: %s::%s returns %r instead of its parameter %r" % (cls, meth, dflt, pn[0]))
+                continue
+            rows.append("(%s, %s, %s)" % (q(cls), q(meth), q(getter)))
+            n += 1
+        if n < 12:
+            E.append("C19: only %d ...OrDefault definitions of %s recognised" % (n, cls))
+    out.append("(* src/CppUTestExt/MockSupport.cpp, src/CppUTestExt/MockActualCall.cpp *)\nDefinition cpp_or_default : list (name * name * name) :=\n  [ %s ]." % ";\n    ".join(rows))
     return "\n".join(out) + "\n"
